@@ -2991,6 +2991,11 @@ PPL::Grid::wrap_assign(const Variables_Set& vars,
       const Variable x(*i);
       // Find the frequency and a value for `x' in `gr'.
       if (!gr.frequency_no_check(x, f_n, f_d, v_n, v_d)) {
+        // `x' takes a continuum of values: if overflow wraps, each of
+        // them may wrap to a value modulo the `wrap_frequency'.
+        if (o == OVERFLOW_WRAPS) {
+          add_grid_generator(parameter(wrap_frequency * x));
+        }
         continue;
       }
       if (f_n == 0) {
